@@ -20,9 +20,12 @@ package main
 // <evs> = `ty:off:end,ty:off:end,…` (`-` = none).
 
 import (
+	"context"
 	"fmt"
-	"os"
 	"strings"
+
+	"github.com/inspirer/textmapper/parsers/js"
+	jsast "github.com/inspirer/textmapper/parsers/js/ast"
 )
 
 func init() { props["C20"] = c20 }
@@ -77,13 +80,78 @@ func c20Direct(evs []c20Ev, n int) string {
 	return ""
 }
 
-// c20Findings: include (and flag) the input class of the known defect candidates.
-func c20Findings() bool { return os.Getenv("VERIF_FINDINGS") != "" }
+// c20EndOffsetDropped is set by the start-up probe: the real builder.build() (File node) drops nodes
+// reported at offset == len(content). While it is set, that input class is only counted (the single
+// violation comes from the probe) and `buildfile` cases are answered by the literal mirror; once the
+// builder is repaired (fixes/C20-end-offset-node.diff) every lost node is a violation and the cases use
+// the op `buildfile2` (File adopts every root).
+var c20EndOffsetDropped bool
+
+func c20BuildFileOp() string {
+	if c20EndOffsetDropped {
+		return "buildfile"
+	}
+	return "buildfile2"
+}
+
+// c20Probe runs the fixed witness: the shipped js parser on the text `a` reports
+// InsertedSemicolon(1,1) at offset == len(content); the tree built from the stream must contain it.
+func c20Probe(c *Ctx) {
+	defer func() {
+		if r := recover(); r != nil {
+			c.Violate(fmt.Sprintf("C20 start-up probe panicked: %v", r), `js "a"`)
+		}
+	}()
+	const src = "a"
+	var evs []jsast.VerifEvent
+	var names []string
+	listener := func(nt js.NodeType, o, e int) {
+		evs = append(evs, jsast.VerifEvent{Type: nt, Offset: o, Endoffset: e})
+		names = append(names, fmt.Sprintf("%v(%d,%d)", nt, o, e))
+	}
+	var s js.TokenStream
+	var p js.Parser
+	s.Init(src, listener)
+	p.Init(func(js.SyntaxError) bool { return true }, listener)
+	_ = p.ParseModule(context.Background(), &s)
+	atEnd := false
+	for _, e := range evs {
+		if e.Offset == len(src) {
+			atEnd = true
+		}
+	}
+	if !atEnd { // the witness stream itself changed: fall back to the fixed stream
+		evs = []jsast.VerifEvent{{Type: js.InsertedSemicolon, Offset: 1, Endoffset: 1}, {Type: js.ReferenceIdent, Offset: 0, Endoffset: 1},
+			{Type: js.IdentExpr, Offset: 0, Endoffset: 1}, {Type: js.ExprStmt, Offset: 0, Endoffset: 1}}
+		names = []string{"InsertedSemicolon(1,1)", "ReferenceIdent(0,1)", "IdentExpr(0,1)", "ExprStmt(0,1)"}
+	}
+	tree, err := jsast.VerifBuild(src, evs)
+	if err != nil || tree == nil || tree.Root() == nil {
+		c.Violate("C20 start-up probe: builder.build() failed on the witness stream", `js "a"`)
+		return
+	}
+	count := 0
+	var walk func(n *jsast.Node)
+	walk = func(n *jsast.Node) {
+		count++
+		for _, k := range jsast.VerifChildren(n) {
+			walk(k)
+		}
+	}
+	walk(tree.Root())
+	if count != len(evs)+1 {
+		c20EndOffsetDropped = true
+		c.Violate(fmt.Sprintf("[C20-end-offset-node-dropped] builder.build() with a File node drops reported nodes that start at the end offset of the text: the js parser reports %s for the text \"a\", the tree built from this stream has %d nodes instead of %d (File + %d reported); the InsertedSemicolon(1,1) node at offset == len(content) stays outside of File(0,1) and stack[0] is returned",
+			strings.Join(names, " "), count, len(evs)+1, len(evs)), `js input "a" (parsers/js, ParseModule) -> parsers/js/ast builder`)
+		c20RuleExtra += "While the start-up probe [C20-end-offset-node-dropped] fails, trees that lack ONLY nodes reported at offset == len(input) are counted (FINDING-CLASS) and not reported again; any other lost node is a violation. "
+	}
+}
 
 // c20Parts: the three parts register themselves (each lives in its own file).
 var c20Parts = map[string]func(*Ctx){}
 
 func c20(c *Ctx) {
+	c20Probe(c)
 	for _, part := range []string{"builder", "shipped", "generated"} {
 		if f := c20Parts[part]; f != nil {
 			f(c)
